@@ -167,6 +167,8 @@ let reader_op (ctx : rtuple list) (unique : bool) (ov : value) =
 
 let impl_s = function 0 -> "allowed" | 1 | 2 -> "denied" | 3 -> "condition-error" | 4 -> "depth-error" | 5 -> "error"
                      | 6 -> "timeout" | 9 -> "list/tree" | _ -> "?"
+let rec has_setop = function Inter _ | Diff (_, _) -> true | Union l -> List.exists has_setop l | _ -> false
+let model_has_setop (m : model) = List.exists (fun td -> List.exists (fun rd -> has_setop rd.rd_rw) td.td_rels) m
 let api_name = function 0 -> "Check" | 1 -> "BatchCheck" | 2 -> "ListObjects" | 3 -> "ListUsers" | _ -> "Expand"
 let eng_name = function 0 -> "default" | 1 -> "optimised" | _ -> "weighted-graph/pipeline"
 let kind_name = function 0 -> "also without caches" | 1 -> "only with warm caches" | _ -> "unstable"
@@ -221,6 +223,10 @@ let f _id vs =
             let conflict =
               eng <> 2 && (api = 0 || api = 1 || api = 2) &&
               List.exists (fun (s, _, _, _) -> wild_direct_conflict m cs store s) atoms in
+            (* optimised ListObjects checks its candidates (intersection / exclusion) with a request whose
+               invariant cache key was never computed: the check query cache is shared between requests
+               with different contextual tuples *)
+            let lo_cache = api = 2 && eng = 1 && kind = 1 && model_has_setop m in
             let v2cache = eng = 2 && kind = 1 && (api = 0 || api = 1) && Lazy.force recursive in
             let v1trig =
               if eng = 2 || api = 4 then None
@@ -238,6 +244,7 @@ let f _id vs =
             if lenient then knowns := ("ctx_lenient_condition " ^ where) :: !knowns
             else if wildcard_lo then knowns := ("lo_wildcard_empty_user_filter " ^ where) :: !knowns
             else if conflict then knowns := ("sorted_dedup_by_object " ^ where) :: !knowns
+            else if lo_cache then knowns := ("lo_cache_key_without_ctx " ^ where) :: !knowns
             else if v2cache then knowns := ("wg_cache_visited " ^ where) :: !knowns
             else if cond_flip then knowns := ("cond_err_order_dependent " ^ where) :: !knowns
             else (match v1trig with
